@@ -253,6 +253,7 @@ func init() {
 		}
 		close(ch)
 		wg.Wait()
+		schedPass(run)
 		run.Set("evaluations", evals)
 		run.Set("distinct_nontrivial", nontrivial)
 		run.Set("rule", "cross product of all 2^6 belief matrices (who believes whom to serve E) x all 3^3 placements (per node: no upstream / healthy upstream / upstream that announced go-away) x entry node x {HTTP, TCP} x x-piko-forward header sent by the client {absent, true, false} on 3 real proxy servers (thorough: also 2 and 4 nodes); every case is distinct; non-trivial = the entry node has no healthy local upstream (the request must be forwarded once, or refused)")
